@@ -1248,3 +1248,5 @@ ASSUMPTIONS = ["PY-STR", "PY-EXC", "PY-REC (modular recursion; decreases on subt
 BOUNDED = ["run texts emitted exactly once and in source order: checked natively by replay/C19.py on all schema-shaped "
            "trees up to depth 2 / width 2 (small scope), not proved",
            "determinism beyond the syntactic policy obligations: double-run comparison in replay/C19.py (small scope)"]
+
+REPLAY_UNKNOWN = True    # undecided / out-of-subset items are searched natively (replay) before being reported UNDECIDED
